@@ -194,6 +194,10 @@ type Plugin struct {
 	// logs
 	MetaCalls   int
 	VerifyCalls []*pf.VerifySignatureRequest
+	// SharedMeta: every GetMetadata answer carries the SAME capability slice (first answer's);
+	// Capabilities itself stays pristine for the oracle
+	SharedMeta bool
+	sharedCaps []pf.Capability
 }
 
 func (p *Plugin) GetMetadata(ctx context.Context, req *pf.GetMetadataRequest) (*pf.GetMetadataResponse, error) {
@@ -203,8 +207,16 @@ func (p *Plugin) GetMetadata(ctx context.Context, req *pf.GetMetadataRequest) (*
 	if p.MetaErr != nil {
 		return nil, p.MetaErr
 	}
+	caps := append([]pf.Capability{}, p.Capabilities...)
+	if p.SharedMeta {
+		// an in-process plugin may well answer every call with the same slice
+		if p.sharedCaps == nil {
+			p.sharedCaps = caps
+		}
+		caps = p.sharedCaps
+	}
 	return &pf.GetMetadataResponse{Name: p.Name, Description: "scripted", Version: p.Version, URL: "https://example.invalid",
-		SupportedContractVersions: []string{"1.0"}, Capabilities: append([]pf.Capability{}, p.Capabilities...)}, nil
+		SupportedContractVersions: []string{"1.0"}, Capabilities: caps}, nil
 }
 
 func (p *Plugin) VerifySignature(ctx context.Context, req *pf.VerifySignatureRequest) (*pf.VerifySignatureResponse, error) {
